@@ -308,6 +308,9 @@ pub struct XlsxBook {
     /// events written as the last children of `<workbook>` (after `workbook_extra`), e.g. an `<extLst>`; unlike
     /// `workbook_extra` they are part of `Built::workbook_events` (C16). Names are written as given (no prefixing).
     pub workbook_tail_events: Vec<Ev>,
+    /// blocks of events (each a balanced run of elements / comments the readers must skip) inserted at random
+    /// positions between the children of `<workbook>`; part of `Built::workbook_events` (C16)
+    pub workbook_inert: Vec<Vec<Ev>>,
 }
 
 impl Default for XlsxBook {
@@ -330,6 +333,7 @@ impl XlsxBook {
             split_defined_names: false,
             cdata_defined_names: false,
             workbook_tail_events: vec![],
+            workbook_inert: vec![],
         }
     }
 }
@@ -1122,6 +1126,35 @@ impl XlsxBook {
             wb.push(Ev::Other(self.workbook_extra.clone()));
         }
         wb.extend(self.workbook_tail_events.iter().cloned());
+        if !self.workbook_inert.is_empty() {
+            // inert blocks go to random boundaries between the children of <workbook>: after its start tag or after
+            // an end tag that closes a child (depth back to 1)
+            let mut wb2 = wb.clone();
+            for block in &self.workbook_inert {
+                let mut depth = 0i32;
+                let mut slots = vec![];
+                for (i, e) in wb2.iter().enumerate() {
+                    match e {
+                        Ev::Start(..) => {
+                            depth += 1;
+                            if depth == 1 {
+                                slots.push(i + 1);
+                            }
+                        }
+                        Ev::End(_) => {
+                            depth -= 1;
+                            if depth == 1 {
+                                slots.push(i + 1);
+                            }
+                        }
+                        _ => {}
+                    }
+                }
+                let at = *rng.pick(&slots);
+                wb2.splice(at..at, block.iter().cloned());
+            }
+            wb = wb2;
+        }
         wb.push(end(&l.q("workbook")));
         let n = self.sheets.len();
         rels.push_str(&format!("<Relationship Id=\"rId{}\" Type=\"{}/styles\" Target=\"styles.xml\"/>", n + 1, NS_REL));
